@@ -239,12 +239,52 @@ def pool_sites(eng):
     return out
 
 
+def _rng_like(eng, fi, name) -> bool:
+    """a parameter that every resolved call site of the function fills with the caller's `rng` (or its own generator parameter)"""
+    f_ = fi
+    while f_ is not None and name not in f_.params:
+        f_ = f_.parent
+    if f_ is None:
+        return False
+    idx = f_.params.index(name) - (1 if f_.cls is not None and not f_.is_static else 0)
+    n = 0
+    for caller in eng.prog.all_functions():
+        for c in calls(caller, f_.name):
+            if not any(t is f_ for t in eng.repo_callees(caller, c)):
+                continue
+            a = c.args[idx] if 0 <= idx < len(c.args) else kwarg(c, name)
+            n += 1
+            if not (isinstance(a, ast.Name) and (a.id == "rng" or (a.id != name or caller is not f_) and _rng_like_cached(eng, caller, a.id))):
+                return False
+    return n > 0
+
+
+_RL = {}
+
+
+def _rng_like_cached(eng, fi, name):
+    k = (id(eng), fi.qualname, name)
+    if k not in _RL:
+        _RL[k] = False  # recursion guard
+        _RL[k] = name == "rng" or _rng_like(eng, fi, name)
+    return _RL[k]
+
+
 def check_pools(eng, res, rule="R-POOLS"):
     found = {}
     sites = pool_sites(eng)
+    # the phase of a pick is the function it stands in; when the closures were renamed / moved to methods / merged, the
+    # name no longer tells the phase: such a site takes the place of a still unclaimed decision point with its (pool, filter)
+    named = {(fi.name, pool, flt) for fi, c, pool, flt in sites}
+    unclaimed = [k for k in EXPECTED_POOLS if k not in named]
     for fi, c, pool, flt in sites:
         res.unit(fi)
         key = (fi.name, pool, flt)
+        if key not in EXPECTED_POOLS:
+            alt = [k for k in unclaimed if k[1:] == (pool, flt)]
+            if alt:
+                key = alt[0]
+                unclaimed.remove(key)
         found.setdefault(key, []).append((fi, c))
         ok = key in EXPECTED_POOLS
         res.ob(rule, fi, f"site:{fi.name}:{pool}:{flt}", EXPECTED_POOLS.get(key, "pick with an admissible (pool, filter) combination for its phase"), c, ok,
@@ -252,7 +292,15 @@ def check_pools(eng, res, rule="R-POOLS"):
         # rng forwarded
         flow = eng.flow(fi)
         r = flow.expand_ssa(c.args[2], flow.cfg.node_of(c)) if len(c.args) > 2 else kwarg(c, "rng")
-        res.ob(rule, fi, f"site:{fi.name}:{pool}:{flt}:rng", "the pick uses the caller's generator", c, r is not None and src(r) == "rng", f"rng argument {src(r) if r is not None else None}")
+        def _is_param(f_, nm):
+            while f_ is not None:
+                if nm in f_.params:
+                    return True
+                f_ = f_.parent
+            return False
+
+        rng_ok = r is not None and (src(r) == "rng" or (isinstance(r, ast.Name) and _is_param(fi, r.id) and _rng_like(eng, fi, r.id)))
+        res.ob(rule, fi, f"site:{fi.name}:{pool}:{flt}:rng", "the pick uses the caller's generator", c, rng_ok, f"rng argument {src(r) if r is not None else None}")
     for key, what in EXPECTED_POOLS.items():
         res.ob(rule, "package", f"present:{':'.join(key)}", f"decision point exists: {what}", "-", key in found and len(found[key]) == 1,
                f"{len(found.get(key, []))} site(s)")
@@ -262,9 +310,9 @@ def check_pools(eng, res, rule="R-POOLS"):
 def check_transitions(eng, res, rule="R-TRANSITIONS"):
     gen = eng.prog.func("stochastic.Stochastic.generate")
     step = None
-    from ..util import with_nested
+    from ..util import with_helpers
 
-    for f in with_nested(gen):
+    for f in with_helpers(eng, gen):
         if calls(f, "choice"):
             step = f
     if step is None:
@@ -286,8 +334,13 @@ def check_transitions(eng, res, rule="R-TRANSITIONS"):
 
     GL = set()
     for t, pol in conds:
+        if isinstance(t, ast.Constant) and bool(t.value) == pol:
+            continue  # `while True:` around the step contributes nothing
         GL |= lits(flow.expand_ssa(t, cfg.node_of(t)), pol)
-    ok = desc is not None and frozenset(GL) == lits_text(f"{src(desc)}.transitions is not None")
+    want_guard = None
+    if desc is not None:
+        want_guard = lits(ast.Compare(left=ast.Attribute(value=desc, attr="transitions", ctx=ast.Load()), ops=[ast.IsNot()], comparators=[ast.Constant(value=None)]), True)
+    ok = desc is not None and frozenset(GL) == want_guard
     res.ob(rule, step, "guard", "the transition pick is taken exactly when the picked open descriptor carries a list", c, ok, f"guard {gtxt}; p from {src(desc) if desc is not None else None}")
     # same descriptor is the one reacted
     att = calls(step, "attach_other")
@@ -332,6 +385,22 @@ def check_transitions(eng, res, rule="R-TRANSITIONS"):
         isinstance(first, ast.AugAssign) and isinstance(first.op, ast.Sub) and src(first.target) == idx_name and src(first.value) == "len(self.repeat_bonds)"
         and "self.end_bonds[" + idx_name + "]" in eb and "self.end_tokens[self.end_bond_token_idx[" + idx_name + "]]" in eb and "repeat_tokens" not in eb
     )
+    if not ok_e and dec_else:
+        # the shifted position may be kept in a name of its own (`end_idx = position - len(self.repeat_bonds)`)
+        shifted = {norm(parse_expr(f"{idx_name} - len(self.repeat_bonds)"))}
+        names = set()
+        restored = any(isinstance(x, (ast.Assign, ast.AugAssign)) and any(isinstance(t, ast.Name) and t.id == idx_name for t in (x.targets if isinstance(x, ast.Assign) else [x.target]))
+                       for st_ in dec_else for x in ast.walk(st_))
+        for st_ in dec_else:
+            for x in ast.walk(st_):
+                if isinstance(x, ast.Assign) and len(x.targets) == 1 and isinstance(x.targets[0], ast.Name) and norm(x.value) in shifted:
+                    names.add(x.targets[0].id)
+        subs = [x for st_ in dec_else for x in ast.walk(st_) if isinstance(x, ast.Subscript) and src(x.value) in ("self.end_bonds", "self.end_bond_token_idx")]
+        good = lambda e: (isinstance(e, ast.Name) and e.id in names) or norm(e) in shifted
+        kinds = {src(x.value) for x in subs}
+        tok = [x for st_ in dec_else for x in ast.walk(st_) if isinstance(x, ast.Subscript) and src(x.value) == "self.end_tokens"]
+        ok_e = (not restored and kinds == {"self.end_bonds", "self.end_bond_token_idx"} and all(good(x.slice) for x in subs)
+                and bool(tok) and all(isinstance(x.slice, ast.Subscript) and src(x.slice.value) == "self.end_bond_token_idx" for x in tok) and "repeat_tokens" not in eb)
     res.ob(rule, step, "decode-end", "other positions, minus the number of repeat descriptors, select that end-group descriptor and its token", dec, ok_e, eb[:140])
 
 
